@@ -477,3 +477,24 @@ func endY(c GlyphOp) float64 {
 //@ safety C19
 //@ requires f != nil && f.FontInfo != nil
 //@ ensures [C19.width.absent] !has(f.Glyphs, name) && !has(f.Glyphs, ".notdef") ==> result == 0
+
+// C19: PDF widths.  The horizontal scale of the font matrix (with the shear
+// correction the library applies when the matrix has a y scale) times 1000.
+func specWidthScale(f *Font) float64 {
+	q := f.FontMatrix[0]
+	if math.Abs(f.FontMatrix[3]) > 1e-6 {
+		q -= f.FontMatrix[1] * f.FontMatrix[2] / f.FontMatrix[3]
+	}
+	return q * 1000
+}
+
+//@ func (*Font).GlyphWidthPDF
+//@ ensures [C19.width.present] has(f.Glyphs, name) && f.Glyphs[name] != nil ==> result == f.Glyphs[name].WidthX * specWidthScale(f)
+//@ ensures [C19.width.notdef] !has(f.Glyphs, name) && has(f.Glyphs, ".notdef") && f.Glyphs[".notdef"] != nil ==> result == f.Glyphs[".notdef"].WidthX * specWidthScale(f)
+
+//@ func (*Font).WidthsMapPDF
+//@ safety C19
+//@ requires f != nil && f.FontInfo != nil
+//@ loop 1 invariant [C19.widthmap] f != nil && f.FontInfo != nil && widths != nil && q == specWidthScale(f)
+//@ loop 1 back-when [C19.widthmap.entry] has(widths, name) && widths[name] == glyph.WidthX * specWidthScale(f)
+//@ loop 1 back-when [C19.widthmap.frame] forall nm string :: nm != name ==> has(widths, nm) == prev(has(widths, nm)) && widths[nm] == prev(widths[nm])
